@@ -1,7 +1,7 @@
 (** Concrete datasets: non-vacuity witnesses for the C15 theorems and the F12 counterexample. *)
 From Coq Require Import Strings.String.
-From Coq Require Import List Bool NArith ZArith Lia.
-From DV Require Import Common.Res Common.Str Generated.T_extract Extract.Model Extract.ProofsStr Extract.Spec
+From Coq Require Import List Bool NArith ZArith QArith_base Lia.
+From DV Require Import Common.Res Common.Str Common.PyNum Generated.T_extract Extract.Model Extract.ProofsStr Extract.Spec
   Extract.ProofsDict Extract.ProofsLoop Extract.ProofsInj Extract.ProofsMain.
 Import ListNotations.
 Local Open Scope N_scope.
@@ -35,7 +35,9 @@ Proof.
 Qed.
 
 Definition E (g e : N) (vr : string) (vm : nat) (kw name : string) (v : val) : elem :=
-  (mk_einfo (g, e) (lit vr) vm (lit kw) (lit name), v).
+  (mk_einfo (g, e) (lit vr) vm (lit kw) (lit name) None, v).
+
+Definition F (n : Z) (d : positive) (tok : string) (c : numcls) : val := VNum c (FFin (Qmake n d)) (lit tok).
 
 (** A dataset with every kind of element: plain (text, DS VM 3, IS), a nested sequence, a blank value, a None value,
     binary bytes, a private block with one translated and one untranslated element, colour table, overlay and pixel data. *)
@@ -47,9 +49,10 @@ Definition ex_ds : dataset := [
     (VSeq [[E 0x0008 0x0100 "SH" 1 "CodeValue" "Code Value" (VStr CStr (lit "X"));
             E 0x0020 0x0013 "IS" 1 "InstanceNumber" "Instance Number" (VInt CIs 3)];
            []]);
-  E 0x0020 0x0013 "IS" 1 "InstanceNumber" "Instance Number" (VInt CIs 7);
+  (mk_einfo (0x0018, 0x0050) (lit "DS") 1 (lit "SliceThickness") (lit "Slice Thickness") (Some (lit " 2.50")), F 5 2 "2.5" CDs);
+  (mk_einfo (0x0020, 0x0013) (lit "IS") 1 (lit "InstanceNumber") (lit "Instance Number") (Some (lit "+07")), VInt CIs 7);
   E 0x0020 0x0032 "DS" 3 "ImagePositionPatient" "Image Position (Patient)"
-    (VMulti CMulti [VNum CDs (lit "1.0"); VNum CDs (lit "2.5"); VNum CDs (lit "-3.0")]);
+    (VMulti CMulti [F 1 1 "1.0" CDs; F 5 2 "2.5" CDs; F (-3) 1 "-3.0" CDs]);
   E 0x0028 0x1201 "OW" 1 "RedPaletteColorLookupTableData" "Red Palette Color Lookup Table Data" (VBytes [0; 1]);
   E 0x0029 0x0010 "LO" 1 "" "Private Creator" (VStr CStr (lit "ACME"));
   E 0x0029 0x1001 "LO" 1 "" "Private tag data" (VStr CStr (lit "first"));
@@ -64,8 +67,9 @@ Definition ex_result : dict := [
   (lit "Modality", VStr CStr (lit "MR"));
   (lit "ReferencedImageSequence",
      VMulti CList [VDict [(lit "CodeValue", VStr CStr (lit "X")); (lit "InstanceNumber", VInt CInt 3)]; VDict []]);
+  (lit "SliceThickness", F 5 2 "2.5" CFloat);
   (lit "InstanceNumber", VInt CInt 7);
-  (lit "ImagePositionPatient", VMulti CList [VNum CFloat (lit "1.0"); VNum CFloat (lit "2.5"); VNum CFloat (lit "-3.0")]);
+  (lit "ImagePositionPatient", VMulti CList [F 1 1 "1.0" CFloat; F 5 2 "2.5" CFloat; F (-3) 1 "-3.0" CFloat]);
   (lit "T1.Tag", VStr CStr (lit "0X29_0X1001"));
   (lit "T1.VR", VStr CStr (lit "LO"))
 ].
@@ -74,11 +78,11 @@ Lemma ex_extract : extract 3 ex_cfg ex_ds = Ok ex_result.
 Proof. vm_compute. reflexivity. Qed.
 
 Lemma ex_kinds : kinds_from ex_cfg [] ex_ds =
-  [KPlain; KBlank; KNoValue; KSequence; KPlain; KPlain; KIgnored; KIgnored; KTranslated; KIgnored; KNoValue; KIgnored; KIgnored; KIgnored].
+  [KPlain; KBlank; KNoValue; KSequence; KPlain; KPlain; KPlain; KIgnored; KIgnored; KTranslated; KIgnored; KNoValue; KIgnored; KIgnored; KIgnored].
 Proof. vm_compute. reflexivity. Qed.
 
 Lemma ex_run : exists st, run 3 ex_cfg ex_ds = Ok st /\
-  map std_tag (s_std st) = [(0x0008, 0x0060); (0x0008, 0x1140); (0x0020, 0x0013); (0x0020, 0x0032)] /\
+  map std_tag (s_std st) = [(0x0008, 0x0060); (0x0008, 0x1140); (0x0018, 0x0050); (0x0020, 0x0013); (0x0020, 0x0032)] /\
   map fst (s_tmeta st) = [lit "T1"].
 Proof. eexists. split; [vm_compute; reflexivity | split; vm_compute; reflexivity]. Qed.
 
